@@ -766,7 +766,12 @@ def _get_problem_arg(
 
 
 def _remove_typing(x):
-    x = str(x)
+    try:
+        x = str(x)
+    except Exception:
+        # E.g. a signature with a default value whose `__repr__` raises. As in
+        # `_pformat`, that must not stop us from raising the type-check error.
+        return f"<Exception raised when formatting object of type {type(x)}.>"
     x = x.replace(" jaxtyping.", " ")
     x = x.replace("[jaxtyping.", "[")
     x = x.replace("'jaxtyping.", "'")
